@@ -285,7 +285,7 @@ class CHECK(vlib.Check):
     def gen_cases(self, rng, tier):
         out = []
         if getattr(self, "_sched", None) or (not hasattr(self, "_sched") and thread_hooks_present()):
-            for i in range(250 if tier == "quick" else 2500):
+            for i in range(250 if tier == "quick" else 1200):
                 out.append(("sched", gen_sched_case(rng)))
             for body in SCHED_DIRECTED:
                 for _ in range(8 if tier == "quick" else 60):
@@ -294,7 +294,7 @@ class CHECK(vlib.Check):
                 import subprocess
                 env = dict(os.environ); env.update(vlib.SAN_ENV)
                 for (line, bq, bt) in EXPLORE:
-                    bound, cap = (bq, 150) if tier == "quick" else (bt, 3000)
+                    bound, cap = (bq, 150) if tier == "quick" else (bt, 1500)
                     try:
                         p = subprocess.run([self._sched, "--explore", str(bound), str(cap)], input=line + "\n", stdout=subprocess.PIPE,
                                            stderr=subprocess.PIPE, text=True, env=env, timeout=1200)
@@ -302,7 +302,7 @@ class CHECK(vlib.Check):
                     except subprocess.TimeoutExpired:
                         pass
                 self._explore_emitted = True
-        n = 900 if tier == "quick" else 9000
+        n = 900 if tier == "quick" else 5000
         for i in range(n):
             nclients = rng.choice([1, 2, 2, 3, 3, 4, 4])
             maxt = rng.choice([1, 1, 2, 2, 3, 4])
@@ -311,7 +311,7 @@ class CHECK(vlib.Check):
             churn = rng.choice([0.0, 0.04, 0.10])
             stream = "shutdown" if p_shut else ("churn" if churn else "steady")
             out.append((stream, "n=%d|%s" % (maxt, ";".join(gen_script(rng, nclients, length, p_shut, churn)))))
-        for i in range(300 if tier == "quick" else 3000):
+        for i in range(300 if tier == "quick" else 1500):
             out.append(("unreg-race", gen_unreg_race(rng)))
         for (maxt, body) in DIRECTED:
             out.append(("directed", "n=%d|%s" % (maxt, body)))
